@@ -15,6 +15,7 @@ RULE_MODULES: Dict[str, str] = {
     "R7": "r07_sites",
     "R14": "r14_tasks",
     "R17": "r17_dataflow",
+    "R18": "r18_debug",
     "R19": "r19_cyclegate",
     "R20": "r20_connect",
     "R21": "r21_projection",
@@ -34,7 +35,7 @@ PROPERTY_RULES: Dict[str, List[str]] = {
     "C02": ["R8", "R2/INFLIGHT", "R2/anc", "R2/own", "R3/P", "R4", "R5", "R11/schedule", "R11/sched-value", "R11/time-arg", "R11/last-step", "R20/table/triggers", "R20/delay",
             "R19/anc-closure"],
     "C03": ["R21", "R8/lift", "R17", "R5/store", "R5/update_min", "R20/delay", "R20/table", "R11/out", "R4/outtime", "R1/O1"],
-    "C04": ["R21", "R8", "R5", "R6", "R17", "R10/R18", "R1/O3", "R20/table", "R20/delay"],
+    "C04": ["R18", "R21", "R8", "R5", "R6", "R17", "R10/R18", "R1/O3", "R20/table", "R20/delay"],
     "C05": ["R8", "R1/O4", "R1/O5", "R2", "R4/wake", "R4/settle", "R4/wait", "R5", "R6", "R7/site", "R19/anc-closure"],
     "C06": ["R5", "R6", "R7/site", "R19"],
     "C07": ["R2/INFLIGHT", "R2/sink", "R2/anc", "R2/own", "R2/until", "R2/extra", "R3/P3", "R5/store", "R5/update_min", "R19/anc-closure"],
